@@ -254,6 +254,10 @@ def C17(ck):
     kzreader.replay(ck, rscen, set())
     kzwriter.record(ck, 'c17', 1500 if T else 300, thorough=T)
     kzreader.record(ck, 'c17r', 1500 if T else 300, thorough=T)
+    # the lifecycle rules (counters monotone, Close idempotent, Read after Close refused) also hold for Readers whose source ends
+    # early or fails after it has delivered some bytes
+    kzreader.record(ck, 'c09', 600 if T else 150, thorough=T)
+    kzreader.record(ck, 'c08r', 600 if T else 150, thorough=T)
 
 
 LEVEL['C01'] = 'model_checking'
@@ -463,6 +467,22 @@ def C16(ck):
                 for a in (1, n // 4, n // 2, n - 1):
                     cases.append({'in': [1] * a + [2] * (n - a), 'lr': lr, 'conv': cv[0], 'pos': cv[1]})
                     cases.append({'in': [2 + (i % 2) for i in range(a)] + [1] * (n - a), 'lr': lr, 'conv': cv[0], 'pos': cv[1]})
+    # totals around the places where count * scale crosses a power of two of the machine arithmetic (2^31, 2^32): a dominant symbol
+    # next to a few rare ones, in every position
+    for lr in range(8, 17):
+        for k in (30, 31, 32, 33):
+            base = 1 << (k - lr)
+            if base < 512 or base > (1 << 27):
+                continue
+            for T2 in sorted({base - 1, base - 2, base - 127, base, base + 1, base - (1 << max(0, 31 - 2 * lr)) - 1}):
+                if T2 < 300:
+                    continue
+                cv = convs[(lr + k) % 4]
+                cases.append({'in': [T2 - 2, 1, 1], 'lr': lr, 'conv': cv[0], 'pos': cv[1]})
+                cases.append({'in': [1, T2 - 2, 1], 'lr': lr, 'conv': cv[0], 'pos': cv[1]})
+                cases.append({'in': [1, 1, T2 - 2], 'lr': lr, 'conv': cv[0], 'pos': cv[1]})
+                cases.append({'in': [1] * 100 + [T2 - 126] + [1] * 26, 'lr': lr, 'conv': cv[0], 'pos': cv[1]})
+                cases.append({'in': [T2 // 2, T2 - T2 // 2], 'lr': lr, 'conv': cv[0], 'pos': cv[1]})
     nrand = 6000 if T else 500
     for i in range(nrand):
         lr = rnd.choice((8, 9, 10, 11, 12, 13, 14, 15, 16))
